@@ -15,12 +15,13 @@
 (*                                                                         *)
 (* Variant selects the protocol:                                            *)
 (*   "fixed"      flag, then sweep, then disconnect; waiter checks flag    *)
+(*   "closefirst" AsyncCache: close the channel, then sweep (no flag)      *)
 (*   "noflag"     sweep, then disconnect; waiter does not look at a flag   *)
 (*                (a marker queued between sweep and disconnect is lost)   *)
 (*   "flaglate"   sweep, then flag, then disconnect (same window)          *)
 (*   "nosweep"    the code before the repair: disconnect only              *)
-(* TLC: EveryWaiterReturns holds for "fixed" and fails for the other three *)
-(* (StopWait_*.cfg); the driver requires exactly that.                     *)
+(* TLC: EveryWaiterReturns holds for "fixed" and "closefirst" and fails    *)
+(* for the other three (StopWait_*.cfg); the driver requires exactly that. *)
 (***************************************************************************)
 EXTENDS Naturals, FiniteSets
 
@@ -51,6 +52,9 @@ ProcStep ==
             \/ ppc = "run" /\ Sweep /\ ppc' = "swept"
             \/ ppc = "swept" /\ Raise /\ ppc' = "flagged"
             \/ ppc = "flagged" /\ Gone /\ ppc' = "gone"
+      [] Variant = "closefirst" ->   \* AsyncCache: close the channel (nothing can be queued any more, what is in it stays), then sweep
+            \/ ppc = "run" /\ connected' = FALSE /\ UNCHANGED <<flag, chan, released, wpc>> /\ ppc' = "flagged"
+            \/ ppc = "flagged" /\ Sweep /\ ppc' = "gone"
       [] Variant = "noflag" ->
             \/ ppc = "run" /\ Sweep /\ ppc' = "swept"
             \/ ppc = "swept" /\ Gone /\ ppc' = "gone"
@@ -81,5 +85,5 @@ TypeOK == chan \subseteq Waiters /\ released \subseteq Waiters /\ ppc \in {"run"
 \* C10: a wait() that has queued its marker returns, whatever the stopping processor does meanwhile
 EveryWaiterReturns == \A w \in Waiters : (wpc[w] = "sent") ~> (wpc[w] = "done")
 \* and nobody is left blocked once everything has settled
-NoOrphan == (ppc = "gone") => \A w \in Waiters : wpc[w] = "blocked" => w \in released
+NoOrphan == (ppc = "gone" /\ ~connected) => \A w \in Waiters : wpc[w] = "blocked" => w \in released
 =============================================================================
